@@ -1,5 +1,7 @@
 //! Reference model R1: timer accounting derived from label events and clock
-//! values only.
+//! values only.  It does not depend on the *names* of the timers: the "solve
+//! root" is whatever root-level timer is running when iteration boundaries
+//! occur, and the model gives it a fresh account at every solve() invoke.
 //!
 //! For each solver object (label events between the invoke/return of a call
 //! on solver `sid`, on one simulated thread) and each root timer we keep
@@ -7,8 +9,9 @@
 //!        and outside print spans;
 //!   hi : lo + every delta that landed on a clock read *inside* a suspend or
 //!        resume operation (whose accounting the property does not fix).
-//! The delta that lands on the first clock read of a resume operation is the
-//! time the print span itself took (a blocked sink); it is in neither.
+//! Print-span time (a blocked sink) is carried separately on the clock event
+//! and belongs to neither, wherever the read that observes it falls; the
+//! remainder of the first read of a resume operation is in neither as well.
 
 use crate::simcore::{Ev, EvKind};
 use clarabel::verif::Event as Label;
@@ -18,7 +21,7 @@ use std::collections::BTreeMap;
 pub struct Boundary {
     /// iteration counter carried by the boundary event
     pub iter: u32,
-    /// certain "solve" time at the boundary event
+    /// certain time of the solve root since this solve() began, at the boundary event
     pub t_lo: u64,
     /// upper bound on any time the implementation could have attributed to
     /// this solver when it decided to continue/stop at this boundary
@@ -29,6 +32,7 @@ pub struct Boundary {
     /// the solver went on to start a timed sub-step after this boundary,
     /// i.e. no verdict was reached *at* the boundary
     pub proceeded: bool,
+    depth: usize,
 }
 
 #[derive(Clone, Debug, Default)]
@@ -58,14 +62,31 @@ struct PerSolver {
     op_reads: u32,
     lo: BTreeMap<&'static str, u64>,
     hi: BTreeMap<&'static str, u64>,
+    // state of the solve() call in progress
+    snap_lo: BTreeMap<&'static str, u64>,
+    snap_hi: BTreeMap<&'static str, u64>,
+    solve_root: Option<&'static str>,
 }
 
 impl PerSolver {
-    fn hi_total(&self) -> u64 {
-        self.hi.values().sum()
+    /// certain time of the solve root since this solve() began
+    fn t_lo(&self) -> u64 {
+        match self.solve_root {
+            Some(r) => self.lo.get(r).unwrap_or(&0) - self.snap_lo.get(r).unwrap_or(&0),
+            None => 0,
+        }
     }
-    fn lo_of(&self, k: &'static str) -> u64 {
-        *self.lo.get(k).unwrap_or(&0)
+    /// everything that could be attributed to this solver object: all roots, except
+    /// what the solve root had accumulated before this solve() began
+    fn t_hi(&self) -> u64 {
+        let mut t = 0;
+        for (k, v) in &self.hi {
+            t += v;
+            if Some(*k) == self.solve_root {
+                t -= self.snap_hi.get(k).unwrap_or(&0);
+            }
+        }
+        t
     }
 }
 
@@ -85,10 +106,10 @@ pub fn analyse(log: &[Ev]) -> Vec<SolveTrace> {
                 if !*ret {
                     current.insert(th, (*sid, op));
                     if *op == "solve" {
-                        // the model starts a fresh "solve" account for every solve()
                         let ps = solvers.entry((th, *sid)).or_default();
-                        ps.lo.insert("solve", 0);
-                        ps.hi.insert("solve", 0);
+                        ps.snap_lo = ps.lo.clone();
+                        ps.snap_hi = ps.hi.clone();
+                        ps.solve_root = None;
                         let t = SolveTrace {
                             sid: *sid,
                             th,
@@ -103,8 +124,8 @@ pub fn analyse(log: &[Ev]) -> Vec<SolveTrace> {
                         if let Some(mut t) = open.remove(&th) {
                             let ps = solvers.entry((th, *sid)).or_default();
                             t.ev_end = i;
-                            t.t_lo_end = ps.lo_of("solve");
-                            t.t_hi_end = ps.hi_total();
+                            t.t_lo_end = ps.t_lo();
+                            t.t_hi_end = ps.t_hi();
                             t.returned = true;
                             // a call that unwound leaves the timer stack dirty
                             ps.stack.clear();
@@ -127,9 +148,10 @@ pub fn analyse(log: &[Ev]) -> Vec<SolveTrace> {
                         // the hi bound for the previous boundary is fixed when
                         // the solver commits to continuing
                         fix_hi(&mut open, th, ps);
-                        if ps.stack.last() == Some(&"IP iteration") {
-                            if let Some(t) = open.get_mut(&th) {
-                                if let Some(b) = t.boundaries.last_mut() {
+                        if let Some(t) = open.get_mut(&th) {
+                            if let Some(b) = t.boundaries.last_mut() {
+                                // a sibling sub-step of the boundary's enclosing timer
+                                if ps.stack.len() == b.depth {
                                     b.proceeded = true;
                                 }
                             }
@@ -156,15 +178,21 @@ pub fn analyse(log: &[Ev]) -> Vec<SolveTrace> {
                     Label::ResumeEnd => ps.in_resume = false,
                     Label::Iteration(it) => {
                         fix_hi(&mut open, th, ps);
-                        if ps.stack.contains(&"IP iteration") {
+                        // a boundary is an iteration record made while timers are running
+                        // (the extra record after the loop is made with all timers stopped)
+                        if !ps.stack.is_empty() {
+                            if ps.solve_root.is_none() {
+                                ps.solve_root = Some(ps.stack[0]);
+                            }
                             if let Some(t) = open.get_mut(&th) {
                                 t.boundaries.push(Boundary {
                                     iter: *it,
-                                    t_lo: ps.lo_of("solve"),
+                                    t_lo: ps.t_lo(),
                                     t_hi: u64::MAX, // fixed later
                                     ev_index: i,
                                     clock_idx: *reads_per_thread.get(&th).unwrap_or(&0),
                                     proceeded: false,
+                                    depth: ps.stack.len(),
                                 });
                             }
                         }
@@ -175,7 +203,7 @@ pub fn analyse(log: &[Ev]) -> Vec<SolveTrace> {
             EvKind::Clock { delta, stall, .. } => {
                 // print-span time is known to the simulator by construction; it belongs
                 // to no timer wherever the read that observes it happens to be
-                let delta = &(*delta - *stall);
+                let delta = *delta - *stall;
                 *reads_per_thread.entry(th).or_insert(0) += 1;
                 let Some((sid, _)) = current.get(&th).copied() else {
                     continue;
@@ -229,7 +257,7 @@ fn fix_hi(open: &mut BTreeMap<u8, SolveTrace>, th: u8, ps: &PerSolver) {
     if let Some(t) = open.get_mut(&th) {
         if let Some(b) = t.boundaries.last_mut() {
             if b.t_hi == u64::MAX {
-                b.t_hi = ps.hi_total();
+                b.t_hi = ps.t_hi();
             }
         }
     }
